@@ -23,7 +23,10 @@ NUM_PRIMS = st.one_of(
     st.tuples(st.integers(-4, 8), st.sampled_from([1, 2, 4, 8])).map(lambda t: ["F", t[0], t[1]]),
 )
 
+INEXACT_FLOATS = st.sampled_from([0.1, 0.2, 0.3, 0.7, 1.1, 1e16, -1e16, 1.0, 2.5, 1e-9]).map(lambda x: ["f", x])
+
 PROFILES = {
+    "inexact": st.one_of(INEXACT_FLOATS, INEXACT_FLOATS, st.integers(-2, 5).map(lambda n: ["i", n])),
     "item": K,
     "truthy": st.one_of(K, TRUTHY_PRIMS),
     "num": st.one_of(NUM_PRIMS, NUM_PRIMS, NUM_PRIMS, K,
@@ -165,6 +168,8 @@ def base_case(draw, name, max_len=8, max_src=4, steps="full"):
         if choice:
             if profile == "lists":
                 v["start"] = draw(st.sampled_from([["l", []], ["l", [["i", 9]]], ["t", []], ["i", 0]]))
+            elif profile == "inexact":
+                v["start"] = draw(st.sampled_from([["i", 0], ["f", 0.0], ["f", 0.5], ["i", 3]]))
             elif profile == "item":
                 v["start"] = draw(st.sampled_from([("K", 1), ("A", 1), ["i", 2]]))
                 if v["start"][0] == "K":
